@@ -28,13 +28,24 @@ def vlen(runs):
     return sum(len(t) for t, _ in runs)
 
 
+def renders_its_runs(f):
+    """1 when str(f) - memoised or not - is what a value freshly built from the same runs renders"""
+    from curtsies.formatstring import FmtStr, Chunk
+    try:
+        return int(str(f) == str(FmtStr(*(Chunk(str(c.s), dict(c.atts)) for c in f.chunks))))
+    except Exception:  # noqa
+        return 0
+
+
 def _again(fn):
     """warming bit 32: the very same call on the very same operand objects was made (and its result used up)
     once before the call that is recorded"""
     if enc.WARM & 32:
         try:
             r = fn()
-            if not isinstance(r, str):
+            if isinstance(r, list):
+                r.clear()          # the caller trimmed / reused the list it was handed
+            elif not isinstance(r, str):
                 try:
                     list(r)
                 except TypeError:
@@ -50,15 +61,15 @@ def enc_res(fn):
     try:
         r = fn()
     except Exception as e:  # noqa - every exception class is an observation
-        return {"k": "exc", "v": [], "t": enc.exc_name(e), "n": 0, "s": []}
+        return {"k": "exc", "v": [], "t": enc.exc_name(e), "n": 0, "s": [], "fr": 1}
     if isinstance(r, str):
-        return {"k": "ok", "v": [[enc.enc_text(r), list(enc.NOATTS)]], "t": "str", "n": len(r), "s": enc.enc_text(r)}
+        return {"k": "ok", "v": [[enc.enc_text(r), list(enc.NOATTS)]], "t": "str", "n": len(r), "s": enc.enc_text(r), "fr": 1}
     if not isinstance(r, FmtStr):
-        return {"k": "exc", "v": [], "t": "NotAFmtStr:" + type(r).__name__, "n": 0, "s": []}
+        return {"k": "exc", "v": [], "t": "NotAFmtStr:" + type(r).__name__, "n": 0, "s": [], "fr": 1}
     try:
-        return {"k": "ok", "v": enc.enc_fmtstr(r), "t": "", "n": len(r), "s": enc.enc_text(r.s)}
+        return {"k": "ok", "v": enc.enc_fmtstr(r), "t": "", "n": len(r), "s": enc.enc_text(r.s), "fr": renders_its_runs(r)}
     except Exception as e:  # noqa
-        return {"k": "exc", "v": [], "t": "OnObserve:" + enc.exc_name(e), "n": 0, "s": []}
+        return {"k": "exc", "v": [], "t": "OnObserve:" + enc.exc_name(e), "n": 0, "s": [], "fr": 1}
 
 
 def enc_list_res(fn):
@@ -68,10 +79,10 @@ def enc_list_res(fn):
     try:
         r = list(fn())
     except Exception as e:  # noqa
-        return {"k": "exc", "t": enc.exc_name(e), "vs": []}
+        return {"k": "exc", "t": enc.exc_name(e), "vs": [], "fr": 1}
     if not all(isinstance(x, FmtStr) for x in r):
-        return {"k": "exc", "t": "NotFmtStrList", "vs": []}
-    return {"k": "ok", "t": "", "vs": [enc.enc_fmtstr(x) for x in r]}
+        return {"k": "exc", "t": "NotFmtStrList", "vs": [], "fr": 1}
+    return {"k": "ok", "t": "", "vs": [enc.enc_fmtstr(x) for x in r], "fr": int(all(renders_its_runs(x) for x in r))}
 
 
 def exec_op(inp):
